@@ -525,6 +525,47 @@ func CorpusDoc(f CorpusFile, stamp int, r *rand.Rand, wide bool) *Doc {
 	return d.finish()
 }
 
+// BigDoc is a valid grammar with `rules` keyword lexemes and one nonterminal that
+// lists them all. When padTo > 0 a trailing comment brings the text to exactly
+// padTo bytes (if it is shorter).
+func BigDoc(stamp, rules, padTo int, wide bool) *Doc {
+	w := &docWriter{}
+	w.s(fmt.Sprintf("# v%d\nlanguage big(go);\n\n:: lexer\n\n", stamp))
+	name := func(i int) string { return fmt.Sprintf("kw%04d_v%d", i, stamp) }
+	for i := 0; i < rules; i++ {
+		if wide && i%97 == 3 {
+			w.s("/* é😀 */ ")
+		}
+		w.id(name(i), RoleDecl)
+		w.s(fmt.Sprintf(": /kw%04d/\n", i))
+	}
+	w.s("\n:: parser\n\n%input ")
+	w.id(fmt.Sprintf("input_v%d", stamp), RoleRef)
+	w.s(";\n\n")
+	w.id(fmt.Sprintf("input_v%d", stamp), RoleDecl)
+	w.s(": ")
+	w.id(fmt.Sprintf("item_v%d", stamp), RoleRef)
+	w.s("+ ;\n")
+	w.id(fmt.Sprintf("item_v%d", stamp), RoleDecl)
+	w.s(":")
+	for i := 0; i < rules; i++ {
+		if i > 0 {
+			w.s(" |")
+		}
+		if i%8 == 7 {
+			w.s("\n   ")
+		}
+		w.s(" ")
+		w.id(name(i), RoleRef)
+	}
+	w.s(" ;\n")
+	text := w.b.String()
+	if n := padTo - len(text); n > 2 {
+		text += "#" + strings.Repeat("x", n-2) + "\n"
+	}
+	return (&Doc{Text: text, Stamp: stamp, Occs: w.occs, Kind: "big"}).finish()
+}
+
 // RawDoc wraps arbitrary text; identifier occurrences are what the tm lexer sees.
 func RawDoc(text string, stamp int) *Doc {
 	d := &Doc{Text: text, Stamp: stamp, Kind: "raw", SyntaxBroken: true}
